@@ -14,6 +14,19 @@ CHECKS = {
          "Trusted: Python int arithmetic and the 60-line spec() in vt/checks/c04.py. Values outside the alphabets "
          "(interior values of wide widths) are not covered.",
          "DESIGN.md 6.C04", "E1"),
+ "C05": ("exploration",
+         "bounded exhaustive enumeration of (width, value, bounds, bound form, written value) tuples vs bit-level integer definitions",
+         "Every read/write of every slice and index with bounds in {None,-2..n+2} (given as int and as Bits) on every value of widths 1..5 (7 thorough), "
+         "boundary bounds on widths 8..1023, all concat tuples of <=3 operands of widths 1..3, all zext/sext/trunc (n,m) pairs, reduce ops on all values "
+         "of widths 1..8 and clog2 on 1..2^17 (2^20) plus 2^k-1,2^k,2^k+1 for k<1100 are compared with the integer definition, including the frame condition on writes.",
+         "Trusted: Python ints and the oracles in vt/checks/c05.py. Interior values of wide words are not covered.",
+         "DESIGN.md 6.C05", "E1"),
+ "C19": ("model_checking",
+         "explicit-state BFS to closure over the real arbiter (fresh elaboration + history replay per transition) against a pointer model; fairness as safety on the product graph",
+         "All reachable priority-register states of RoundRobinArbiter(En) for nreqs 2..6 (8 thorough) under every (reqs,en,reset) letter are visited by executing the "
+         "real simulator; grants, pointer update, reset and the wait bound are compared with an integer pointer model in every transition.",
+         "Trusted: the 15-line pointer model. Only nreqs up to the bound; DefaultPassGroup scheduling (schedule independence is C01's subject).",
+         "DESIGN.md 6.C19", "E1"),
 }
 
 NOT_YET = {}
